@@ -155,6 +155,51 @@ def convert_rules(ctx):
             alts.append((g2, t_))
     xy = [(g, t) for g, t in alts if len([p for p in cat_parts(t) if isinstance(p, App) and p.op == "meth:to_bytes"]) == 2]
     raw = [(g, t) for g, t in alts if isinstance(t, App) and t.op == "meth:public_bytes"]
+    # decided by evaluating the key bytes of the alternative that reads the public numbers on sample coordinates of the three curve
+    # sizes (leading zero bytes, top bit, all ones): exactly X||Y, each ceil(size / 8) bytes, big endian - however it is assembled
+    ec = [(g, t) for g, t in alts if any(isinstance(s_, App) and s_.op == "meth:public_numbers" for s_ in subterms(t))]
+    grid_decided, grid_bad, grid_n = False, None, 0
+    if len(ec) == 1:
+        t_ec = ec[0][1]
+        xs_ = {s_ for s_ in subterms(t_ec) if isinstance(s_, App) and s_.op == "attr:x"}
+        ys_ = {s_ for s_ in subterms(t_ec) if isinstance(s_, App) and s_.op == "attr:y"}
+        ks_ = {s_ for s_ in subterms(t_ec) if isinstance(s_, App) and s_.op == "attr:key_size"}
+        try:
+            for size_ in (256, 384, 521):
+                w_ = (size_ + 7) // 8
+                top_ = (1 << size_) - 1
+                for x_, y_ in ((1, 2), (top_, top_), (top_ >> 9, top_), (top_, 0x04), (0x0400 << (size_ - 16), top_ >> 1), (0, 0),
+                               (int.from_bytes(bytes(range(1, w_ + 1)), "big") & top_, int.from_bytes(bytes(range(200, 200 - w_, -1)), "big") & top_)):
+                    env = {**{s_: x_ for s_ in xs_}, **{s_: y_ for s_ in ys_}, **{s_: size_ for s_ in ks_}, **generic.loops_env(outs[0], t_ec)}
+                    got = teval(t_ec, env)
+                    grid_n += 1
+                    if bytes(got) != x_.to_bytes(w_, "big") + y_.to_bytes(w_, "big") and grid_bad is None:
+                        grid_bad = f"P-{size_}, x = {x_:#x}"[:60] + f": {len(got)} bytes {bytes(got).hex()[:40]}..."
+            grid_decided = True
+        except (Unknown, TypeError, ValueError, OverflowError):
+            grid_decided = False
+    if grid_decided:
+        R.rule("C15-D1g X||Y on sample coordinates", 1, "key bytes = X then Y, each ceil(curve size / 8) bytes, big endian, for coordinates with leading zero bytes too")
+        R.check("C15-D1g X||Y on sample coordinates", grid_bad is None, f"{grid_n} sample points on P-256 / P-384 / P-521", mod=fi.module, node=fi.node,
+                function=fq, expected="x.to_bytes(w, 'big') + y.to_bytes(w, 'big'), w = 32 / 48 / 66", found=grid_bad or "")
+    pk = [s for _g, t_ in alts for s in subterms(t_) if isinstance(s, App) and s.op.endswith("load_pem_private_key")]
+    if not pk:
+        raise AnalysisError(f"{fq}: key loading not recognised")
+    key = pk[0]
+    if grid_decided and len(xy) != 1:
+        R.infos.append("X||Y not assembled from two to_bytes conversions: the width / order proof rules do not apply; decided on sample coordinates (C15-D1g)")
+    else:
+        import contextlib
+        with (R.lenient("decided by evaluating the key bytes on sample coordinates (C15-D1g)") if grid_decided else contextlib.nullcontext()):
+            r_ = _xy_shape_rules(ctx, fi, fq, alts, xy, key)
+        if r_ == "x962":
+            return keys_unused(ctx)
+    _after_xy(ctx, fi, fq, outs, alts, raw, key)
+
+
+def _xy_shape_rules(ctx, fi, fq, alts, xy, key):
+    """Proof form of C15-D1: X||Y assembled from two to_bytes conversions of one curve-derived width (or the X9.62 point)."""
+    R = ctx.report
     R.rule("C15-D1 fixed-width X||Y", 5, "both widths one expression, independent of the coordinate values, 32/48/66 by curve, big endian, X then Y")
     if len(xy) != 1:
         # the other sound form: the X9.62 uncompressed point 04 || X || Y with exactly the first byte removed by position
@@ -170,14 +215,10 @@ def convert_rules(ctx):
                 R.check("C15-D1 fixed-width X||Y", good, "X||Y = uncompressed point without its first byte", mod=fi.module, node=fi.node, function=fq,
                         expected="public_bytes(X962, UncompressedPoint)[1:] - exactly one byte removed, whatever the coordinates are",
                         found=f"{t!r}"[:200] + " (a value-dependent strip removes coordinate bytes equal to 0x04 as well)")
-            return keys_unused(ctx)
+            return "x962"
         raise AnalysisError(f"{fq}: X||Y form not recognised ({len(xy)})")
     g, t = xy[0]
     tb = [p for p in cat_parts(t) if isinstance(p, App) and p.op == "meth:to_bytes"]
-    pk = [s for s in subterms(t) if isinstance(s, App) and s.op.endswith("load_pem_private_key")]
-    if not pk:
-        raise AnalysisError(f"{fq}: key loading not recognised")
-    key = pk[0]
     nums = App("meth:public_numbers", (App("meth:public_key", (key,)),))
     X, Y = App("attr:x", (nums,)), App("attr:y", (nums,))
     R.check("C15-D1 fixed-width X||Y", len(cat_parts(t)) == 2 and tb[0].args[0] == X and tb[1].args[0] == Y, "X then Y of the key's public numbers",
@@ -210,6 +251,11 @@ def convert_rules(ctx):
                 expected=f"{WIDTHS}", found=f"{got}")
     R.check("C15-D1 fixed-width X||Y", all(len(x.args) > 2 and x.args[2] == Const("big") for x in tb), "big endian", mod=fi.module,
             node=fi.node, function=fq, expected="byteorder='big'", found=f"{[x.args[2:] for x in tb]}")
+
+
+def _after_xy(ctx, fi, fq, outs, alts, raw, key):
+    R, repo = ctx.report, ctx.repo
+    ev = Evaluator(repo, inline_depth=0)
     R.rule("C15-D1b raw EdDSA key", 2, "keys without public numbers fall back to the raw public bytes")
     ok = len(raw) == 1 and raw[0][1].args[0] == App("meth:public_key", (key,))
     R.check("C15-D1b raw EdDSA key", ok and "Raw" in repr(raw[0][1]), "public_bytes(Raw, Raw) of the same key", mod=fi.module, node=fi.node,
